@@ -74,6 +74,12 @@ func cmdVerify(args []string) int {
 	var results []*FuncResult
 	for _, k := range keys {
 		fi := prog.Funcs[k]
+		if prog.Contracts[k].Pure {
+			fr := verifyPureLemma(prog, prog.Contracts[k], opts)
+			results = append(results, fr)
+			all = append(all, fr.Obls...)
+			continue
+		}
 		if fi == nil {
 			fmt.Printf("ORPHAN contract %s: no such function\n", k)
 			bad++
